@@ -90,7 +90,42 @@ def random_wf(rng, maxn=4, heavy=False):
     return {"nodes": nodes, "edges": edges}
 
 
+def join_wf(rng):
+    """join-heavy DAG: several parents feeding a join over edges of different
+    (also non-divisible) volumes, plus a tail"""
+    n = rng.randint(4, 7)
+    nodes = [{"k": k, "comp": rng.choice([1, 2, 3, 4, 6, 8]), "data": rng.choice([0, 0, 0, 2, 5])}
+             for k in range(1, n + 1)]
+    edges = []
+    for v in range(2, n + 1):
+        for u in range(1, v):
+            if rng.random() < (0.7 if v >= n - 1 else 0.3):
+                edges.append({"u": u, "v": v, "vol": rng.choice([0, 1, 2, 3, 5, 6, 7])})
+    return {"nodes": nodes, "edges": edges}
+
+
 def random_cfg(rng, alg=None, family="roomy", nobs=None, maxn=4):
+    if family == "join":
+        c = random_cfg(rng, alg=alg, family="roomy", nobs=nobs or rng.choice([1, 1, 2]), maxn=maxn)
+        nm = rng.randint(2, 3)
+        c["machines"] = [{"id": f"m{i}", "cpu": rng.choice([1, 2, 3]), "bw": rng.choice([1, 1, 2, 3])}
+                         for i in range(nm)]
+        K = 1
+        for m in c["machines"]:
+            K = lcm(K, m["bw"])
+        c["K"] = K
+        c["maxIngest"] = min(c["maxIngest"], nm)
+        for o in c["obs"]:
+            o["wf"] = join_wf(rng)
+            o["ing"] = min(o["ing"], c["maxIngest"])
+        c["extra"] = [e for e in c["extra"] if any(n["k"] == e["k"] for o in c["obs"] if o["o"] == e["o"] for n in o["wf"]["nodes"])]
+        if c["alg"] == "batch":
+            c["parts"] = min(c["parts"], nm)
+            c["minPer"] = min(c["minPer"], max(1, nm // c["parts"]))
+            c["split"] = []
+        if c["alg"] in ("plan", "greedy"):
+            c["plan"] = static_plan(c, rng)
+        return normalise(c)
     nm = rng.randint(1, 4)
     machines = [{"id": f"m{i}", "cpu": rng.choice([1, 1, 2, 3]), "bw": rng.choice([1, 1, 1, 2])}
                 for i in range(nm)]
